@@ -249,5 +249,9 @@ def run(tier="quick"):
         cap = [r[0][0].upper() + r[0][1:] for r in gp.rules]
         ok = rule in cap and re.search(r"\b%s%s\(" % (kind, rule), iface) is not None
         direct.append(("listener callback %s%s names a grammar rule" % (kind, rule), ok, ""))
+    # (5) the generated Go recursive-descent code against its own ATN (matches, rule calls, lookahead tests)
+    from . import gencode
+    for name, ok in gencode.run():
+        direct.append((name, ok, ""))
     z3.close()
     return obligations, direct, {"z3_calls": z3.calls, "z3_s": round(z3.secs, 2), "parser_rules": len(gp.rules), "lexer_rules": len(gl.rules)}
